@@ -221,25 +221,31 @@ class Front:
             raise NotRecognised("oneshot: try/finally not found")
         t = tries[0]
 
+        order = {}
+
         def acts(stmts, what):
-            front, proc = [], False
+            front, proc, seq = [], False, []
             for s in stmts:
                 for n in self._ordered(s):
                     if isinstance(n, ast.Call):
                         d = extract.dotted(n.func)
                         if d.startswith("self.") and d.endswith("." + what):
                             front.append(d.split(".")[1])
+                            seq.append("front")
                         if d == "self._proc." + ("oneshot_enter" if what == "cache_activate" else "oneshot_exit"):
                             proc = True
+                            seq.append("proc")
+            order[what] = seq
             return front, proc
         a_front, a_proc = acts(t.body, "cache_activate")
-        d_front, d_proc = acts(t.finalbody, "cache_deactivate")
         d_front_body, _ = acts(t.body, "cache_deactivate")
+        d_front, d_proc = acts(t.finalbody, "cache_deactivate")
         in_finally = bool(d_front) and not d_front_body
         if not in_finally:
             d_front, d_proc = acts(t.body + t.finalbody + t.orelse, "cache_deactivate")
         return {"underLock": under_lock, "nestedTest": nested, "exitInFinally": in_finally,
-                "frontActivate": a_front, "frontDeactivate": d_front, "procEnter": a_proc, "procExit": d_proc}
+                "frontActivate": a_front, "frontDeactivate": d_front, "procEnter": a_proc, "procExit": d_proc,
+                "actOrder": order["cache_activate"], "deactOrder": order["cache_deactivate"]}
 
     @staticmethod
     def _ordered(st):
@@ -402,6 +408,10 @@ def facts(snap, F):
     F.try_add("procDeactivate", "List String",
               lambda: strs(proc_lists("cache_deactivate") if osf()["procExit"] else []),
               "helpers deactivated by _proc.oneshot_exit()")
+    F.try_add("actOrder", "List String", lambda: strs(osf()["actOrder"]),
+              "oneshot(): execution order of the activations: \"front\" = one self.<m>.cache_activate(self), \"proc\" = self._proc.oneshot_enter()")
+    F.try_add("deactOrder", "List String", lambda: strs(osf()["deactOrder"]),
+              "oneshot(): execution order of the deactivations: \"front\" = one self.<m>.cache_deactivate(self), \"proc\" = self._proc.oneshot_exit()")
     F.try_add("nestedTest", "Bool", lambda: L.lean_bool(osf()["nestedTest"]),
               "oneshot(): `if hasattr(self, \"_cache\"): yield` makes a nested block a no-op")
     F.try_add("exitInFinally", "Bool", lambda: L.lean_bool(osf()["exitInFinally"]),
